@@ -9,6 +9,7 @@ import (
 	"os"
 	"path/filepath"
 	"runtime/debug"
+	"strconv"
 	"strings"
 	"testing"
 
@@ -120,7 +121,12 @@ func mutateFiles(t *rapid.T, files map[string][]byte) map[string]string {
 		case 8: // template body replaced by a hostile template
 			for _, f := range names {
 				if strings.HasSuffix(f, ".gotmpl") {
-					out[f] = out[f] + "\n# " + rapid.SampledFrom([]string{"{{ fail \"x\" }}", "{{ include \"hlp.name\" . | repeat 3 }}", "{{ getFile \"nope\" }}", "{{ (getFileGlob \"**\") | toJson }}", "{{ index .config \"label\" 3 }}", "{{ .images.nosuch }}", "{{ cel \"cond.nosuch\" }}", "{{ cel \"1 +\" }}", "{{ cel \"config.label\" }}", "{{ cel \"config\" }}", "{{ fromYAML \": :\" }}", "{{ b64decMap (dict \"a\" \"!!\") }}", "{{ regexMatch \"[\" \"a\" }}", "{{ splitList \"\" .config.label | first }}", "{{ dict 1 2 3 }}", "{{ semver \"x\" }}", "{{ toDecimal \"zz\" }}"}).Draw(t, "tmpl") + "\n"
+					out[f] = out[f] + "\n# " + rapid.SampledFrom([]string{"{{ fail \"x\" }}",
+						"{{ define \"rec.self\" }}{{ include \"rec.self\" . }}{{ end }}{{ include \"rec.self\" . }}",
+						"{{ define \"rec.a\" }}{{ include \"rec.b\" . }}{{ end }}{{ define \"rec.b\" }}{{ include \"rec.a\" . }}{{ end }}{{ include \"rec.a\" . }}",
+						"{{ define \"rec.walk\" }}{{ if . }}{{ include \"rec.walk\" false }}{{ include \"rec.walk\" . }}{{ end }}{{ end }}{{ include \"rec.walk\" true }}",
+						"{{ define \"rec.t\" }}{{ template \"rec.t\" . }}{{ end }}{{ template \"rec.t\" . }}",
+						"{{ define \"rec.two\" }}{{ if . }}{{ include \"rec.leaf\" 1 }}{{ include \"rec.two\" . }}{{ end }}{{ end }}{{ define \"rec.leaf\" }}x{{ end }}{{ include \"rec.two\" true }}", "{{ include \"hlp.name\" . | repeat 3 }}", "{{ getFile \"nope\" }}", "{{ (getFileGlob \"**\") | toJson }}", "{{ index .config \"label\" 3 }}", "{{ .images.nosuch }}", "{{ cel \"cond.nosuch\" }}", "{{ cel \"1 +\" }}", "{{ cel \"config.label\" }}", "{{ cel \"config\" }}", "{{ fromYAML \": :\" }}", "{{ b64decMap (dict \"a\" \"!!\") }}", "{{ regexMatch \"[\" \"a\" }}", "{{ splitList \"\" .config.label | first }}", "{{ dict 1 2 3 }}", "{{ semver \"x\" }}", "{{ toDecimal \"zz\" }}"}).Draw(t, "tmpl") + "\n"
 					break
 				}
 			}
@@ -133,6 +139,13 @@ func mutateFiles(t *rapid.T, files map[string][]byte) map[string]string {
 }
 
 func runC19Pipeline(c *c19FilesCase) (passedFirstLayer bool, err error) {
+	// unbounded recursion must end in a Go fatal error quickly instead of eating a gigabyte of stack first
+	maxStack := 256
+	if v, e := strconv.Atoi(os.Getenv("VERIF_MAXSTACK_MB")); e == nil && v > 0 {
+		maxStack = v
+	}
+	debug.SetMaxStack(maxStack << 20)
+	MarkCurrent(c)
 	ctx := context.Background()
 	files := packages.Files{}
 	for k, v := range c.Files {
